@@ -3,6 +3,7 @@ package ast
 import (
 	"bytes"
 	"fmt"
+	"sort"
 	"strings"
 
 	"github.com/textwire/textwire/v2/token"
@@ -44,4 +45,18 @@ func (os *ObjectLiteral) Line() uint {
 
 func (os *ObjectLiteral) Position() token.Position {
 	return os.Pos
+}
+
+// SortedKeys returns the keys of the object literal in alphabetical
+// order, so that evaluating it doesn't depend on the map iteration order
+func (ol *ObjectLiteral) SortedKeys() []string {
+	keys := make([]string, 0, len(ol.Pairs))
+
+	for key := range ol.Pairs {
+		keys = append(keys, key)
+	}
+
+	sort.Strings(keys)
+
+	return keys
 }
